@@ -21,6 +21,12 @@ impl<T> MpscSender<T> {
     #[verifier::external_body] pub fn clone(&self) -> (r: Self) ensures r.q() == self.q(), r.fresh() { unimplemented!() }
     #[verifier::external_body] pub fn len(&self) -> (r: usize) { unimplemented!() }
     #[verifier::external_body] pub fn is_closed(&self) -> (r: bool) { unimplemented!() }
+    // Sender::close_channel: closes the queue from the SENDING side for every sender (what is queued is still delivered). hannibal never
+    // does that: a mailbox is closed by its actor going away, not by someone who submits to it. The call itself is the finding.
+    #[verifier::external_body]
+    pub fn close_channel(&mut self, Tracked(w): Tracked<&mut World>)
+        requires false,                                                                        // @ob chan.only-the-actor-closes-its-mailbox C04,C12,C05,C02
+    { unimplemented!() }
     // the non-waiting operation: enqueue now or fail; on a fresh sender it fails only because the receiver is gone
     #[verifier::external_body]
     pub fn start_send(&mut self, msg: T, Tracked(w): Tracked<&mut World>) -> (r: Result<(), SendError>)
